@@ -170,7 +170,13 @@ int create_frame_op(World &w, const Op &op) {
     std::vector<Column> cols;
     // column units are stored as given
     static const char *cu[] = {"", "mV", "s", "Hz", "", "m / s", "\xc2\xb5V", "muA", "kg m^2", " ms", "arb. u.", "1/mus"};
-    for (int i = 0; i < ncols; i++) { Column c; c.name = "c" + std::to_string(i); c.unit = cu[r.below(r.chance(1, 2) ? 4 : 12)]; c.dtype = kVarTypes[r.below(7)]; cols.push_back(c); }
+    // column names: half of the frames use c0..c7, the others draw from a pool in which names are prefixes, case variants and
+    // extensions of one another (a column is looked up by name)
+    static const char *cn[] = {"c", "c0", "c01", "rate", "rate_hz", "Rate", "r", "x y", "x", "\xc2\xb5", "time", "time ", "t", "value", "values", "v"};
+    bool pool_names = r.chance(1, 2);
+    std::vector<int> order; for (int i = 0; i < 16; i++) order.push_back(i);
+    for (int i = 15; i > 0; i--) { int j = (int) r.below((uint64_t) i + 1); std::swap(order[(size_t) i], order[(size_t) j]); }
+    for (int i = 0; i < ncols; i++) { Column c; c.name = pool_names ? std::string(cn[order[(size_t) i]]) : "c" + std::to_string(i); c.unit = cu[r.below(r.chance(1, 2) ? 4 : 12)]; c.dtype = kVarTypes[r.below(7)]; cols.push_back(c); }
     int invalid = ((unsigned) a[2]) % 20;
     std::string name = w.resolve_name(op.s, "/data/" + b.name() + "/data_frames");
     bool dup = b.hasDataFrame(name);
